@@ -45,7 +45,7 @@ void explore(const char *pid, const Spec &spec) {
     std::map<std::string, int> seen;
     std::deque<Node> frontier;
     long states = 0, transitions = 0, histories = 0, pruned = 0, violations = 0, target_changes = 0,
-         reattach = 0, max_conn = 0;
+         reattach = 0, max_conn = 0, depth_cut = 0, max_depth = 0;
     std::string first_violation;
 
     auto run = [&](const Node &n, const Event *extra, std::vector<int> &cur, std::string &key, std::string &target,
@@ -109,7 +109,8 @@ void explore(const char *pid, const Spec &spec) {
     while (!frontier.empty()) {
         Node n = frontier.front();
         frontier.pop_front();
-        if (int(n.hist.size()) >= spec.depth) continue;
+        if (int(n.hist.size()) > max_depth) max_depth = long(n.hist.size());
+        if (int(n.hist.size()) >= spec.depth) { ++depth_cut; continue; }   // unexpanded frontier state
         for (const Event &e : spec.events) {
             std::vector<int> after = n.cur;
             after[e.prop] = e.value >= 0 ? e.value : (after[e.prop] + 1) % spec.domsize[e.prop];
@@ -131,8 +132,8 @@ void explore(const char *pid, const Spec &spec) {
             }
         }
     }
-    std::printf("%s|summary|states=%ld transitions=%ld histories=%ld pruned=%ld violations=%ld target_changes=%ld reattach=%ld max_connections=%ld\n",
-                pid, states, transitions, histories, pruned, violations, target_changes, reattach, max_conn);
+    std::printf("%s|summary|states=%ld transitions=%ld histories=%ld pruned=%ld violations=%ld target_changes=%ld reattach=%ld max_connections=%ld depth_cut=%ld max_depth=%ld\n",
+                pid, states, transitions, histories, pruned, violations, target_changes, reattach, max_conn, depth_cut, max_depth);
     if (!first_violation.empty()) std::printf("%s|violation|%s\n", pid, first_violation.c_str());
 }
 
